@@ -20,6 +20,8 @@ import (
 	"unsafe"
 
 	"golang.org/x/tools/go/ssa"
+
+	"symgo/smt"
 )
 
 type continuation int
@@ -239,16 +241,25 @@ func siteOf(fr *frame, instr ssa.Instruction) string {
 	return fr.fn.String() + "#" + fr.block.String()
 }
 
+// inRangeTerm is 0 <= idx < n for a symbolic index of the given kind.
+func inRangeTerm(sx sym, n int) value {
+	w, signed := kindWidth(sx.k)
+	c := G.ctx
+	if signed {
+		if w < 64 && uint64(n) >= uint64(1)<<uint(w-1) {
+			return symBool(c.App(smtSLe, smtBool, c.Const(smtBV(w), 0), sx.t))
+		}
+		return symBool(c.And(c.App(smtSLe, smtBool, c.Const(smtBV(w), 0), sx.t), c.App(smtSLt, smtBool, sx.t, c.Const(smtBV(w), uint64(n)))))
+	}
+	if w < 64 && uint64(n) >= uint64(1)<<uint(w) {
+		return true
+	}
+	return symBool(c.App(smtULt, smtBool, sx.t, c.Const(smtBV(w), uint64(n))))
+}
+
 func indexCheck(idx value, n int, fr *frame, instr ssa.Instruction) int {
 	if sx, ok := idx.(sym); ok {
-		w, signed := kindWidth(sx.k)
-		c := G.ctx
-		var in value
-		if signed {
-			in = symBool(c.And(c.App(smtSLe, smtBool, c.Const(smtBV(w), 0), sx.t), c.App(smtSLt, smtBool, sx.t, c.Const(smtBV(w), uint64(n)))))
-		} else {
-			in = symBool(c.App(smtULt, smtBool, sx.t, c.Const(smtBV(w), uint64(n))))
-		}
+		in := inRangeTerm(sx, n)
 		site := siteOf(fr, instr)
 		if !truth(in, site+"/range") {
 			panic(runtimeError(fmt.Sprintf("index out of range (symbolic index) with length %d", n)))
@@ -281,28 +292,39 @@ func symTableIndex(elem func(i int) value, n int, idx sym, fr *frame, instr ssa.
 			return nil, false
 		}
 	}
-	w, signed := kindWidth(idx.k)
+	w, _ := kindWidth(idx.k)
 	c := G.ctx
-	var in value
-	if signed {
-		in = symBool(c.And(c.App(smtSLe, smtBool, c.Const(smtBV(w), 0), idx.t), c.App(smtSLt, smtBool, idx.t, c.Const(smtBV(w), uint64(n)))))
-	} else {
-		in = symBool(c.App(smtULt, smtBool, idx.t, c.Const(smtBV(w), uint64(n))))
-	}
+	in := inRangeTerm(idx, n)
 	if !truth(in, siteOf(fr, instr)+"/range") {
 		panic(runtimeError(fmt.Sprintf("index out of range (symbolic index) with length %d", n)))
 	}
-	// group equal entries to keep the chain short
-	res := termOf(elem(n - 1))
-	for i := n - 2; i >= 0; i-- {
+	// group indices by entry value: default = most frequent value, one ite per other value
+	groups := map[*smt.Term][]int{}
+	var order []*smt.Term
+	for i := 0; i < n; i++ {
 		e := termOf(elem(i))
-		if e == res {
+		if _, ok := groups[e]; !ok {
+			order = append(order, e)
+		}
+		groups[e] = append(groups[e], i)
+	}
+	def := order[0]
+	for _, e := range order {
+		if len(groups[e]) > len(groups[def]) {
+			def = e
+		}
+	}
+	res := def
+	for _, e := range order {
+		if e == def {
 			continue
 		}
-		res = c.Ite(c.Eq(idx.t, c.Const(smtBV(w), uint64(i))), e, res)
+		cond := c.False()
+		for _, i := range groups[e] {
+			cond = c.Or(cond, c.Eq(idx.t, c.Const(smtBV(w), uint64(i))))
+		}
+		res = c.Ite(cond, e, res)
 	}
-	// (entries equal to the running default are skipped only when contiguous with it; chain stays correct
-	// because each explicit test precedes the default)
 	return mkSym(res, k0), true
 }
 
